@@ -19,6 +19,7 @@ Theorem C06_roundtrip_u64 : forall x, x < 2 ^ 64 -> roundtrip u64_codec x.
 Proof. exact rt_u64. Qed.
 Theorem C06_roundtrip_usize : forall x, x < 2 ^ 64 -> roundtrip usize_codec x.
 Proof. exact rt_usize. Qed.
+Print Assumptions C06_roundtrip_usize.
 Theorem C06_roundtrip_pair : forall a b, a < 2 ^ 64 -> b < 2 ^ 64 -> roundtrip pair_codec (a, b).
 Proof. exact rt_pair. Qed.
 (* vectors: any length whose buffer fits in isize (what a Vec can hold) *)
